@@ -28,6 +28,18 @@ class Boom(Exception):
     pass
 
 
+def _hook_exception(kind, where):
+    """The exception a failing hook raises: any kind must surface as SolutionError chained to it."""
+    from fsic.exceptions import NonConvergenceError, SolutionError
+    if kind == 'SolutionError':
+        return SolutionError('inner ' + where)
+    if kind == 'NonConvergenceError':
+        return NonConvergenceError('inner ' + where)
+    if kind == 'KeyError':
+        return KeyError('inner ' + where)
+    return Boom(where)
+
+
 class ScriptedBase:
     """Mixin holding the scripted behaviour; combine with BaseModel (and optionally extension mixins)."""
 
@@ -59,14 +71,14 @@ class ScriptedBase:
         if self.__dict__.get('_sc_hooks_write'):
             self._C[t] += 1000.0  # a pre-solution calculation on a non-check endogenous variable
         if self.__dict__['_sc_pre_exc']:
-            raise Boom('pre')
+            raise _hook_exception(self.__dict__['_sc_pre_exc'], 'pre')
 
     def solve_t_after(self, t, **kw):
         self.__dict__['_sc_log'].append(('post', self._pos(t), kw.get('iteration')))
         if self.__dict__.get('_sc_hooks_write'):
             self._C[t] += 5000.0  # a post-solution calculation
         if self.__dict__['_sc_post_exc']:
-            raise Boom('post')
+            raise _hook_exception(self.__dict__['_sc_post_exc'], 'post')
 
     def _evaluate(self, t, **kw):
         d = self.__dict__
